@@ -51,7 +51,7 @@ Print Assumptions C11_contradictory_rejected.
 (* and conversely, when the generators deliver, exactly those templates are accepted *)
 Theorem C11_accepts_iff : forall X,
   wf_bytes (x_rand X) -> (N.to_nat keymax <= length (x_rand X))%nat ->
-  (forall bits e, (2048 <= bits)%Z -> g_check_public_exponent e = true ->
+  (forall bits e, (2048 <= bits <= g_rsa_max_bits)%Z -> g_check_public_exponent e = true ->
      exists rk, x_rsa X bits e = Some rk /\ Forall (fun mx => snd mx <> 0) (g_rsa_fields rk)) ->
   (forall c, exists ek, x_ec X c = Some ek /\
      Forall (fun mx => snd mx <> 0 /\ g_num_bytes (snd mx) <= g_curve_len c) (g_ec_fields ek)) ->
@@ -88,17 +88,29 @@ Theorem C11_rsa_exponent_rule : forall e,
 Proof. exact public_exponent_rule. Qed.
 Print Assumptions C11_rsa_exponent_rule.
 
-(* a size that reads as an int under 2048 is refused *)
-Theorem C11_rsa_min_bits : forall t z,
-  lookup g_bits t = Some (JInt z) -> (g_to_int z < 2048)%Z -> g_rsa_request t = None.
-Proof. exact rsa_small_bits_rejected. Qed.
-Print Assumptions C11_rsa_min_bits.
+(* "bits" is the 64-bit value itself: under 2048 or over OPENSSL_RSA_MAX_MODULUS_BITS (16384) is refused *)
+Theorem C11_rsa_size_range : forall t z,
+  lookup g_bits t = Some (JInt z) -> (z < 2048 \/ g_rsa_max_bits < z)%Z -> g_rsa_request t = None.
+Proof. exact rsa_bits_out_of_range_rejected. Qed.
+Print Assumptions C11_rsa_size_range.
+
+(* an integer "e" reaches OpenSSL as the number it is; a negative one is refused *)
+Theorem C11_rsa_exponent_as_requested : forall t z bits e,
+  lookup g_e t = Some (JInt z) -> (z < 18446744073709551616)%Z -> g_rsa_request t = Some (bits, e) ->
+  (0 <= z)%Z /\ e = Z.to_N z.
+Proof. exact rsa_int_exponent_as_requested. Qed.
+Print Assumptions C11_rsa_exponent_as_requested.
+
+Theorem C11_rsa_negative_exponent_rejected : forall t z,
+  lookup g_e t = Some (JInt z) -> (z < 0)%Z -> g_rsa_request t = None.
+Proof. exact rsa_negative_exponent_rejected. Qed.
+Print Assumptions C11_rsa_negative_exponent_rejected.
 
 (* the members of an accepted RSA key are the generated numbers, minimal-width big-endian base64url *)
 Theorem C11_rsa_members : forall X, wf_bytes (x_rand X) -> forall t k,
   jwk_gen X t = Some k -> nodup_keys t -> g_req_s g_kty k = Some g_RSA ->
   exists bits e rk,
-    g_rsa_request t = Some (bits, e) /\ (2048 <= bits)%Z /\ g_check_public_exponent e = true /\
+    g_rsa_request t = Some (bits, e) /\ (2048 <= bits <= g_rsa_max_bits)%Z /\ g_check_public_exponent e = true /\
     x_rsa X bits e = Some rk /\
     (forall m x, In (m, x) (g_rsa_fields rk) ->
        exists jm, lookup m k = Some jm /\ g_bn_decode_json jm = Some x /\
@@ -108,15 +120,18 @@ Proof. exact gen_rsa_members. Qed.
 Print Assumptions C11_rsa_members.
 
 (* with OpenSSL's guarantee about RSA_generate_key_ex as a hypothesis (g_rsa_good: modulus of 2*(bits/2) bits,
-   exponent as asked, n = p q, e d = 1 mod lcm(p-1, q-1), CRT members): size, exponent, consistency *)
+   exponent as asked, n = p q, e d = 1 mod lcm(p-1, q-1), CRT members): the size is the requested one when it is
+   even (one bit less when odd -- OpenSSL), never under 2048; exponent as requested; consistency *)
 Theorem C11_rsa_consistent : forall X, wf_bytes (x_rand X) ->
   (forall bits e rk, x_rsa X bits e = Some rk -> g_rsa_good bits e rk) ->
   forall t k, jwk_gen X t = Some k -> nodup_keys t -> g_req_s g_kty k = Some g_RSA ->
   exists bits e rk,
-    g_bits_read t = Some bits /\ (2048 <= bits)%Z /\ g_exp_read t = Some e /\
+    g_bits_read t = Some bits /\ (2048 <= bits <= g_rsa_max_bits)%Z /\ g_exp_read t = Some e /\
     (e = 3 \/ (N.odd e = true /\ 2 ^ 16 <= e < 2 ^ 256)) /\
     (forall m x, In (m, x) (g_rsa_fields rk) -> g_member_num m k = Some x) /\
-    g_rsa_good bits e rk /\ (2048 <= Z.of_N (N.size (rk_n rk)))%Z /\
+    g_rsa_good bits e rk /\
+    (2048 <= Z.of_N (N.size (rk_n rk)) <= bits)%Z /\
+    (Z.even bits = true -> Z.of_N (N.size (rk_n rk)) = bits) /\
     lookup g_bits k = None.
 Proof. exact gen_rsa_consistent. Qed.
 Print Assumptions C11_rsa_consistent.
@@ -139,32 +154,11 @@ Print Assumptions C11_ec_valid.
 
 (* ---- generation-only members, key_ops, everything else ------------------------------------------------ *)
 
-(* what the code deletes: "bytes" from an oct key, "bits" from an RSA key ... *)
+(* generation-only members are gone from every generated key, whatever its type *)
 Theorem C11_generation_members_gone : forall X, wf_bytes (x_rand X) -> forall t k,
-  jwk_gen X t = Some k -> nodup_keys t ->
-  (g_req_s g_kty k = Some g_oct -> lookup g_bytes k = None) /\
-  (g_req_s g_kty k = Some g_RSA -> lookup g_bits k = None).
+  jwk_gen X t = Some k -> nodup_keys t -> lookup g_bytes k = None /\ lookup g_bits k = None.
 Proof. exact gen_members_gone. Qed.
 Print Assumptions C11_generation_members_gone.
-
-(* ... and what it does not (the property says both are gone from every generated key): *)
-Theorem C11_generation_members_gone_refuted_oct :
-  exists X t k, wf_bytes (x_rand X) /\ nodup_keys t /\ jwk_gen X t = Some k /\
-                g_req_s g_kty k = Some g_oct /\ lookup g_bits k <> None.
-Proof. exact generation_members_survive. Qed.
-Print Assumptions C11_generation_members_gone_refuted_oct.
-
-Theorem C11_generation_members_gone_refuted_ec :
-  exists X t k, wf_bytes (x_rand X) /\ nodup_keys t /\ jwk_gen X t = Some k /\
-                g_req_s g_kty k = Some g_EC /\ lookup g_bits k <> None /\ lookup g_bytes k <> None.
-Proof. exact generation_members_survive_ec. Qed.
-Print Assumptions C11_generation_members_gone_refuted_ec.
-
-Theorem C11_generation_members_gone_refuted_rsa :
-  exists X t k, wf_bytes (x_rand X) /\ nodup_keys t /\ jwk_gen X t = Some k /\
-                g_req_s g_kty k = Some g_RSA /\ lookup g_bytes k <> None.
-Proof. exact generation_members_survive_rsa. Qed.
-Print Assumptions C11_generation_members_gone_refuted_rsa.
 
 (* key_ops: inferred from alg exactly when neither use nor key_ops is given; otherwise left as given *)
 Theorem C11_key_ops_inferred : forall X, wf_bytes (x_rand X) -> forall t k,
@@ -212,26 +206,12 @@ Theorem C11_complete : forall X t k,
 Proof. exact gen_complete. Qed.
 Print Assumptions C11_complete.
 
-(* ---- where the current code falls short of "requested size / exponent" ---------------------------------- *)
-
-(* "bits" is read with the "i" format: 2^32 + 2048 bits requested, 2048 generated *)
-Theorem C11_rsa_requested_size_refuted :
-  exists t z, lookup g_bits t = Some (JInt z) /\ (z > 4294967296)%Z /\ g_rsa_request t = Some (2048%Z, 65537).
-Proof. exact rsa_bits_narrowed. Qed.
-Print Assumptions C11_rsa_requested_size_refuted.
-
-(* an integer "e" goes through BN_set_word: e = -1 requested, 2^64 - 1 used *)
-Theorem C11_rsa_requested_exponent_refuted :
-  exists t z, lookup g_e t = Some (JInt z) /\ (z < 0)%Z /\ g_rsa_request t = Some (2048%Z, 18446744073709551615).
-Proof. exact rsa_negative_exponent. Qed.
-Print Assumptions C11_rsa_requested_exponent_refuted.
-
-(* "bytes": 0 together with an algorithm is taken for "not given" *)
-Theorem C11_oct_zero_bytes_with_alg_refuted :
-  exists X t k, wf_bytes (x_rand X) /\ nodup_keys t /\ lookup g_bytes t = Some (JInt 0) /\
-                jwk_gen X t = Some k /\ g_oct_request t = Some 32%Z.
-Proof. exact bytes_zero_with_alg_accepted. Qed.
-Print Assumptions C11_oct_zero_bytes_with_alg_refuted.
+(* a "bytes" member other than exactly the algorithm's size contradicts the algorithm (0 included) *)
+Theorem C11_oct_size_contradicts_alg_rejected : forall X, wf_bytes (x_rand X) -> forall t a L v,
+  nodup_keys t -> g_req_s g_alg t = Some a -> g_alg_implies a = Some (IOct L) ->
+  lookup g_bytes t = Some v -> v <> JInt L -> jwk_gen X t = None.
+Proof. exact gen_bytes_contradict_alg_rejected. Qed.
+Print Assumptions C11_oct_size_contradicts_alg_rejected.
 
 (* ---- the premises are satisfiable: closed, non-trivial instances ------------------------------------------ *)
 
@@ -252,6 +232,14 @@ Example ex_ec_accepted :
   | Some k => g_req_s g_kty k = Some g_EC /\ lookup g_crv k = Some (JStr g_P384) /\
               lookup [107; 105; 100] k = Some (JStr [49]) /\ g_crv_request ex_es384_kid = Some GC384
   | None => False
+  end.
+Proof. vm_compute. repeat split; reflexivity. Qed.
+
+Example ex_members_gone_other_type :
+  match jwk_gen g_demo_ext (JObj [(g_alg, JStr ga_HS256); (g_bits, JInt 2048)]),
+        jwk_gen g_demo_ext (JObj [(g_kty, JStr g_EC); (g_crv, JStr g_P256); (g_bytes, JInt 5); (g_bits, JInt 7)]) with
+  | Some k1, Some k2 => lookup g_bits k1 = None /\ lookup g_bits k2 = None /\ lookup g_bytes k2 = None
+  | _, _ => False
   end.
 Proof. vm_compute. repeat split; reflexivity. Qed.
 
@@ -280,8 +268,15 @@ Example ex_template_ok :
      JObj [(g_kty, JStr g_RSA); (g_e, JInt 4)];
      JObj [(g_kty, JStr g_RSA); (g_e, JInt 1)];
      JObj [(g_kty, JStr g_RSA); (g_e, JBool true)];
-     JObj [(g_kty, JStr g_EC); (g_crv, JStr [80; 45; 49; 57; 50])]]     (* P-192 *)
-  = [true; true; true; false; false; false; false; false; false; false; true; false; false; true; false; false; false; false].
+     JObj [(g_kty, JStr g_EC); (g_crv, JStr [80; 45; 49; 57; 50])];     (* P-192 *)
+     JObj [(g_alg, JStr ga_HS256); (g_bytes, JInt 0)];                  (* 0 contradicts the algorithm's 32 *)
+     JObj [(g_kty, JStr g_RSA); (g_bits, JInt 16384)];
+     JObj [(g_kty, JStr g_RSA); (g_bits, JInt 16385)];
+     JObj [(g_kty, JStr g_RSA); (g_bits, JInt 4294969344)];             (* 2^32 + 2048: no narrowing any more *)
+     JObj [(g_kty, JStr g_RSA); (g_e, JInt (-1))];
+     JObj [(g_kty, JStr g_RSA); (g_e, JInt (-65537))]]
+  = [true; true; true; false; false; false; false; false; false; false; true; false; false; true; false; false; false; false;
+     false; true; false; false; false; false].
 Proof. vm_compute. reflexivity. Qed.
 
 (* the hypotheses about OpenSSL's generators are satisfiable *)
